@@ -4,6 +4,7 @@
 use std::io::{BufRead, Write};
 
 mod pk;
+mod st;
 
 fn handle(line: &str) -> String {
     let mut it = line.split_ascii_whitespace();
@@ -13,6 +14,7 @@ fn handle(line: &str) -> String {
     let args: Vec<&str> = it.collect();
     let out = match stream {
         "pk" => pk::run(&args),
+        "st" => st::run(&args),
         _ => "bad-op".into(),
     };
     format!("{id} {out}")
